@@ -163,13 +163,13 @@ def build_jobs(t, sd):
     thorough = t != "quick"
     jobs = []
     level = "thorough" if thorough else "quick"
-    for v, where in ([(6, "main"), (8, "sub"), (4, "sub"), (10, "main")] if not thorough else
-                     [(2, "main"), (5, "sub"), (6, "main"), (8, "sub"), (10, "main"), (10, "sub")]):
-        fam = gen_rw.rw_family("A", v, level if v in (6, 8) else "quick", sd, where, nrandom=(400 if thorough else 60))
+    for vi, (v, where) in enumerate([(6, "main"), (8, "sub"), (4, "sub"), (10, "main")] if not thorough else
+                                    [(2, "main"), (5, "sub"), (6, "main"), (8, "sub"), (10, "main"), (10, "sub")]):
+        fam = gen_rw.rw_family("A", v, level if v in (6, 8) else "quick", sd, where, nrandom=(400 if thorough else 60), offset=vi)
         if not thorough and v in (4, 10):
-            fam = fam[::4]
+            fam = fam[vi % 4::4]
         # the same placements with an explicitly numbered (but still routine-local) variable
-        fam += gen_rw.rw_family("A", v, "quick", sd, where, nrandom=(100 if thorough else 20), xslot=(7 if where == "main" else 200))[:: (1 if thorough else 5)]
+        fam += gen_rw.rw_family("A", v, "quick", sd, where, nrandom=(100 if thorough else 20), xslot=(7 if where == "main" else 200), offset=vi + 1)[(0 if thorough else vi):: (1 if thorough else 5)]
         for (name, rec, opts) in fam:
             j = {"id": "%s@v%d" % (name, v), "family": ":".join(name.split(":")[:2]), "rec": to_json(rec), "version": v, "mode": "A",
                  "optimize": None, "lens": (0, 1)}
